@@ -198,9 +198,16 @@ def probe(app, method, path, envbits):
     app.document_index = index
     app.debug = debug
     calls = []
+    over = {}
+    if envbits[5] in "23":
+        # the debug switch given by the request environment, against the attribute: 2 = attribute off, poor_Debug=On;
+        # 3 = attribute on, poor_Debug=Off
+        app.debug = envbits[5] == "3"
+        over = {"poor_Debug": "On" if envbits[5] == "2" else "Off"}
     env = {"REQUEST_METHOD": method, "PATH_INFO": path.encode("utf-8").decode("latin-1"), "QUERY_STRING": "",
            "SERVER_NAME": "srv", "SERVER_PORT": "80", "SERVER_PROTOCOL": "HTTP/1.1", "wsgi.url_scheme": "http",
            "wsgi.input": io.BytesIO(b""), "wsgi.errors": io.StringIO(), "verif.calls": calls}
+    env.update(over)
     st = []
     body = b"".join(app(env, lambda s, h: st.append(s)))
     status = st[0][:3] if st else "none"
